@@ -2192,4 +2192,103 @@ theorem canonical_of_canonicalB {t : Text} (h : canonicalB t = true) : Canonical
 
 
 
+/-- the one-text-box line tree after `text_align`: same tree, or the justified one -/
+theorem textAlign_tree (s : AlignStyle) (x w cx cw : Rat) (n : Nat) (avail : Rat) (last : Bool) (off : Rat) (t : IBox)
+    (h : textAlign s (.inl x w false [.text cx cw n]) w avail last = .ok (off, t)) :
+    (t = .inl x w false [.text cx cw n] ∧ (w ≥ avail → off = 0) ∧ (w < avail → 0 ≤ off ∧ off ≤ avail - w)) ∨
+    (w < avail ∧ off = 0 ∧ n ≠ 0 ∧ t = .inl (x + 0) avail false [.text (cx + 0) (cw + (avail - w)) n]) := by
+  have hr := align_offset_range s _ _ w avail off last h
+  unfold textAlign at h
+  split at h
+  · cases h; left; exact ⟨rfl, hr.1, hr.2⟩
+  · rename_i hlt
+    simp only at h
+    split at h <;> first | (cases h; left; exact ⟨rfl, hr.1, hr.2⟩) | skip
+    · -- justify
+      split at h
+      · cases h
+        by_cases hn : n = 0
+        · left
+          refine ⟨?_, hr.1, hr.2⟩
+          subst hn
+          simp [justifyLine, countSpaces, countSpacesL]
+        · right
+          have hw : w < avail := by grind
+          refine ⟨hw, rfl, hn, ?_⟩
+          have hn' : (n : Rat) ≠ 0 := by exact_mod_cast hn
+          have hc := Rat.div_mul_cancel (a := avail - w) hn'
+          simp only [justifyLine, countSpaces, countSpacesL, Nat.add_zero, hn, ne_eq, not_false_eq_true, if_true,
+            addWordSpacing, Bool.false_eq_true, if_false, addWordSpacingL, IBox.inFlow,
+            show n > 0 from Nat.pos_of_ne_zero hn]
+          congr 1 <;> grind
+      · cases h; left; exact ⟨rfl, hr.1, hr.2⟩
+    · cases h
+/-- **content lies inside the block** (ltr): the line box `get_next_linebox` returns for a text line
+starts at the block's content edge or to its right, and — when it is not wider than the block — ends
+inside the block, for every `text-align-all` / `text-align-last`, with or without justification; a
+wider line starts at the content edge (it overflows at the end side only); the text box sits
+`text-indent` inside the line and is exactly as wide as the line minus the indent. -/
+theorem text_line_inside_block (p : Para) (lineX posX y : Rat) (s : TextSplit) (c : Child) (l : OutLine)
+    (hrtl : p.align.rtl = false) (h : textLine p lineX posX y s c = .ok l) :
+    l.y = y ∧ l.h = p.lineHeight ∧ l.resume = s.resume ∧
+    (l.w ≤ p.width → lineX ≤ l.x ∧ l.x + l.w ≤ lineX + p.width) ∧
+    (p.width < l.w → l.x = lineX) ∧
+    ∃ t cx cw, l.child = some (t, cx, cw) ∧ cx = l.x + (posX - lineX) ∧ cx + cw = l.x + l.w := by
+  unfold textLine at h
+  simp only [hrtl, Bool.false_eq_true, if_false] at h
+  cases hr : removeLastWhitespace p.st c with
+  | error e => rw [hr] at h; cases h
+  | ok cr =>
+    rw [hr] at h
+    simp only [Except.bind] at h
+    obtain ⟨c', removed⟩ := cr
+    simp only at h
+    -- the removed width is what the text lost
+    have hrem : c'.width = c.width - removed := by
+      unfold removeLastWhitespace at hr
+      split at hr
+      · cases hr; grind
+      · simp only at hr
+        split at hr
+        · split at hr
+          · cases hr; grind
+          · cases hs : splitTextBox p.st (rstripSp c.text) MaxW.none 0 true with
+            | error e => rw [hs] at hr; cases hr
+            | ok ts =>
+              rw [hs] at hr
+              simp only [Except.bind] at hr
+              split at hr <;> first | (cases hr; done) | (cases hr; simp only; grind)
+        · cases hr; simp only; grind
+    cases ha : textAlign p.align (IBox.inl lineX (posX + c.width - lineX - removed) false
+        [IBox.text posX c'.width (count c'.text ' ')]) (posX + c.width - lineX - removed) p.width
+        (s.resume.isNone || s.preserved) with
+    | error e => rw [ha] at h; cases h
+    | ok r =>
+      rw [ha] at h
+      obtain ⟨off, t⟩ := r
+      simp only at h
+      rcases textAlign_tree p.align _ _ _ _ _ _ _ _ _ ha with ⟨ht, h1, h2⟩ | ⟨hlt, hoff, hn, ht⟩
+      · subst ht
+        simp only at h
+        cases h
+        refine ⟨rfl, rfl, rfl, ?_, ?_, ⟨_, _, _, rfl, ?_, ?_⟩⟩
+        · intro hw
+          simp only at hw ⊢
+          by_cases hge : posX + c.width - lineX - removed ≥ p.width
+          · have := h1 hge; grind
+          · have := h2 (by grind); grind
+        · intro hw
+          simp only at hw ⊢
+          have := h1 (by grind); grind
+        · simp only; grind
+        · simp only; grind
+      · subst ht hoff
+        simp only at h
+        cases h
+        refine ⟨rfl, rfl, rfl, ?_, ?_, ⟨_, _, _, rfl, ?_, ?_⟩⟩
+        · intro _; simp only; constructor <;> grind
+        · intro hw; simp only at hw ⊢; grind
+        · simp only; grind
+        · simp only; grind
+
 end Wp.C09L
